@@ -8,6 +8,10 @@ import SpecterModel.C31.Props
 * `request_identity` — what `RequestCertificate` issues
 * `renew_iff` — exact success condition of `RenewCertificate`; `renew_preserves_identity`, `v1_rejected`, `foreign_ca_rejected`,
   `key_mismatch_rejected`, `bad_proof_rejected`
+* trust pool (the `ClientCA` chain): `renewChain_iff` — renewal succeeds exactly when the presented certificate verifies under
+  element 0 of the chain (the client CA itself) and the `renew_iff` conditions hold; `renewChain_tail_irrelevant` — certificates
+  bundled behind the client CA never influence the outcome; `bundled_parent_rejected` — a certificate that chains to ANY bundled
+  certificate other than the client CA is refused; `renewChain_single`, `renewChain_preserves_identity`
 -/
 namespace Specter.C32
 open Specter.C31 (Bytes dec parseNat join colon parseNat_dec dec_digits isDigit colon_not_digit)
@@ -140,6 +144,67 @@ theorem key_mismatch_rejected (cn : Bytes) (i : Identity) (he : extract cn = .ok
     (powKey k : Bytes) (hk : powKey ≠ k) :
     renew false true true cn .ok powKey (some k) = .error .keyMismatch := by simp [renew, he, hv, hk]
 
+/-! ## the trust pool: only `ClientCA.Certificate[0]` is a trust anchor -/
+
+/-- With a one-certificate `ClientCA` (the configuration of the repository's tests) `renewChain` is `renew`. -/
+theorem renewChain_single (derEmpty parseOK b : Bool) (cn : Bytes) (powRes : C31.Res) (powKey : Bytes) (certKey : Option Bytes) :
+    renewChain derEmpty parseOK [some b] cn powRes powKey certKey =
+      liftRenew (renew derEmpty parseOK b cn powRes powKey certKey) := by
+  cases derEmpty
+  · cases parseOK
+    · simp [renewChain, renew, liftRenew]
+    · simp [renewChain, trustVerdict]
+  · simp [renewChain, renew, liftRenew]
+
+/-- Whatever is bundled behind the client CA in `ClientCA.Certificate` (its issuer, the root, an unrelated certificate, garbage,
+any number of them) has no influence on `RenewCertificate`. -/
+theorem renewChain_tail_irrelevant (derEmpty parseOK : Bool) (e : ChainElem) (t t' : List ChainElem) (cn : Bytes)
+    (powRes : C31.Res) (powKey : Bytes) (certKey : Option Bytes) :
+    renewChain derEmpty parseOK (e :: t) cn powRes powKey certKey =
+      renewChain derEmpty parseOK (e :: t') cn powRes powKey certKey := by
+  cases e <;> simp [renewChain, trustVerdict]
+
+/-- **Exact success condition over the whole `ClientCA` chain**: the presented certificate must verify with the FIRST chain
+element (the client CA) as the only root; verifying under any later element does not help. -/
+theorem renewChain_iff (derEmpty parseOK : Bool) (chain : List ChainElem) (cn : Bytes) (powRes : C31.Res) (powKey : Bytes)
+    (certKey : Option Bytes) (c : Cert) :
+    renewChain derEmpty parseOK chain cn powRes powKey certKey = .ok c ↔
+      derEmpty = false ∧ parseOK = true ∧ chain.head? = some (some true) ∧ (∃ i, extract cn = .ok i ∧ i.version = .v2) ∧
+      powRes = .ok ∧ certKey = some powKey ∧ c = { cn := cn, key := powKey } := by
+  unfold renewChain
+  cases derEmpty <;> cases parseOK <;> simp
+  match chain with
+  | [] => simp [trustVerdict]
+  | none :: _ => simp [trustVerdict]
+  | some b :: _ =>
+    simp only [trustVerdict, liftRenew, List.head?_cons, Option.some.injEq]
+    have hr := renew_iff false true b cn powRes powKey certKey c
+    cases h : renew false true b cn powRes powKey certKey with
+    | ok c' =>
+      rw [h] at hr
+      simp only [Except.ok.injEq]
+      constructor
+      · intro e; have := hr.mp (by rw [e]); exact ⟨this.2.2.1, this.2.2.2⟩
+      · intro ⟨hb, rest⟩; exact Except.ok.inj (hr.mpr ⟨rfl, rfl, hb, rest⟩)
+    | error e =>
+      rw [h] at hr
+      simp only [reduceCtorEq, false_iff]
+      intro ⟨hb, rest⟩; exact absurd (hr.mpr ⟨rfl, rfl, hb, rest⟩) (by simp)
+
+/-- A certificate that does not verify under the client CA is refused with "not issued by this CA" — even when it verifies
+under certificates bundled behind the client CA (`t` is arbitrary: it may contain `some true`). -/
+theorem bundled_parent_rejected (t : List ChainElem) (cn : Bytes) (powRes : C31.Res) (powKey : Bytes) (certKey : Option Bytes) :
+    renewChain false true (some false :: t) cn powRes powKey certKey = .error (.renew .notOurCA) := by
+  simp [renewChain, trustVerdict, renew, liftRenew]
+
+/-- A renewed certificate keeps subject, key and identity, and the presented one was verified by the client CA itself. -/
+theorem renewChain_preserves_identity (derEmpty parseOK : Bool) (chain : List ChainElem) (cn : Bytes) (powRes : C31.Res)
+    (powKey : Bytes) (certKey : Option Bytes) (c : Cert)
+    (h : renewChain derEmpty parseOK chain cn powRes powKey certKey = .ok c) :
+    chain.head? = some (some true) ∧ c.cn = cn ∧ certKey = some c.key ∧ extract c.cn = extract cn := by
+  obtain ⟨_, _, hh, _, _, hk, hc⟩ := (renewChain_iff _ _ _ _ _ _ _ _).mp h
+  subst hc; exact ⟨hh, rfl, hk, rfl⟩
+
 /-! ## non-vacuity -/
 def b64I : Bytes → Bytes := fun x => x.map (· % 10 + 65)
 def cnEx : Bytes := makeSubjectV2 b64I 42 [1, 2, 3]     -- "v2:42:BCD"
@@ -153,6 +218,16 @@ example : renew false true true cnEx .ok [9] (some [9]) = .ok { cn := cnEx, key 
   (renew_iff _ _ _ _ _ _ _ _).mpr ⟨rfl, rfl, rfl, ⟨_, extract_makeV2 b64I 42 (by omega) _, rfl⟩, rfl, rfl, rfl⟩
 example : renew false true true cnEx .ok [9] (some [8]) = .error .keyMismatch :=
   key_mismatch_rejected _ _ (extract_makeV2 b64I 42 (by omega) _) rfl _ _ (by decide)
+-- client CA is an intermediate, its root is bundled: issued by the client CA → renewed; issued by the bundled root → refused
+example : renewChain false true [some true, some false] cnEx .ok [9] (some [9]) = .ok { cn := cnEx, key := [9] } :=
+  (renewChain_iff _ _ _ _ _ _ _ _).mpr ⟨rfl, rfl, rfl, ⟨_, extract_makeV2 b64I 42 (by omega) _, rfl⟩, rfl, rfl, rfl⟩
+example : renewChain false true [some false, some true] cnEx .ok [9] (some [9]) = .error (.renew .notOurCA) :=
+  bundled_parent_rejected _ _ _ _ _
+example : renewChain false true [some false, none, some true] cnEx .ok [9] (some [9]) =
+    renewChain false true [some false] cnEx .ok [9] (some [9]) := renewChain_tail_irrelevant _ _ _ _ _ _ _ _ _
+example : renewChain false true [] cnEx .ok [9] (some [9]) = .error .noChain := by simp [renewChain, trustVerdict]
+example : renewChain false true [none, some true] cnEx .ok [9] (some [9]) = .error .caUnparsable := by
+  simp [renewChain, trustVerdict]
 example : request (fun x => x) b64I .ok [1, 2, 3] 42 = .issued { cn := cnEx, key := [1, 2, 3] } := by
   simp [request, cnEx]
 example : makeSubjectV2 b64I 42 [1, 2, 3] ≠ makeSubjectV2 b64I 43 [1, 2, 3] := fun e => by
